@@ -2,6 +2,7 @@ package main
 
 import (
 	"archive/zip"
+	"bytes"
 	"encoding/base64"
 	"encoding/json"
 	"errors"
@@ -229,7 +230,7 @@ func checkC18(c *hx.Checker) {
 		"byte faults: EVERY truncation offset and EVERY single-byte substitution by {all 256 values for seeds < 700 B (thorough: < 2 KiB); 0x00,0x01,0x7f,0x80,0xff,b^1,b^0x80 otherwise}; ndm.onnx: 4096 evenly spread truncation offsets + substitutions at 2048 offsets; " +
 		"structural faults on the decoded proto of every seed: each initializer dims entry -> {-1,0,1,d-1,d+1,2^31,2^62}, data_type -> 0..22,99, raw payload +-1 byte / empty, names emptied / duplicated, node inputs/outputs shortened, value-info dims perturbed, graph removed; " +
 		"opset imports: every version in {-1,0..25,2^31,2^63-1} alone, with an ai.onnx.ml import before/after, duplicated, and no import at all; operator types: each registered name and 120 unregistered names placed first / middle / last in a 3-node graph and off the path to the declared output (dead branch listed after / before the producing node, unread consumer of the output, node without inputs, node without outputs), each also with the caller's map carrying an entry for every name a node produces. " +
-		"each faulted string goes through NewModelFromBytes under recover() and, when it loads, one Run under recover() (Run panics are counted, not judged: the statement is about loading). non-trivial = every faulted string"
+		"loaders: 10 models (weights of 1 .. 262 147 values, compressible and not) through NewModelFromBytes, NewModelFromFile and NewModelFromZipFile (stored / deflated entries) must return the weight bit for bit; each faulted string goes through NewModelFromBytes under recover() and, when it loads, one Run under recover() (Run panics are counted, not judged: the statement is about loading). non-trivial = every faulted string"
 	c.Assumptions = []string{"'loads iff the highest imported version is 13' is the statement's rule, whatever the domain of the import", "a Run panic of a corrupted-but-loadable model is outside the statement and only counted (run_panics)"}
 	type job struct {
 		b      []byte
@@ -470,6 +471,24 @@ func checkC18(c *hx.Checker) {
 			return hx.OK("load-error")
 		})
 	})
+	// the three loaders must agree: models of growing size (weights up to 1 MiB, compressible and not) written to a
+	// file and into stored / deflated zip archives; each loader's model must return the weight bit for bit
+	for _, n := range []int{1, 300, 9000, 40000, 262147} {
+		for _, compressible := range []bool{false, true} {
+			n, compressible := n, compressible
+			c.Case(hx.CaseInfo{ID: fmt.Sprintf("loaders/%d-weights/compressible=%v", n, compressible), Tags: []string{"loaders", "zip"}, NonTrivial: true}, func() (v *hx.Violation) {
+				mk := func(kind, detail string) *hx.Violation {
+					return &hx.Violation{Kind: kind, Detail: detail, Replay: map[string]any{"replay_kind": "loaders", "n": n, "compressible": compressible}}
+				}
+				defer func() {
+					if p := recover(); p != nil {
+						v = mk("panic", fmt.Sprintf("%v :: %s", p, firstLines(string(debug.Stack()), 12)))
+					}
+				}()
+				return loadersCase(n, compressible, mk)
+			})
+		}
+	}
 	// the zip sample through NewModelFromZipFile
 	c.Case(hx.CaseInfo{ID: "zip/nt_1.zip", Tags: []string{"zip"}, NonTrivial: true}, func() (v *hx.Violation) {
 		defer func() {
@@ -506,4 +525,86 @@ func sortStrings(s []string) {
 
 func init() {
 	replayers["zip"] = func(raw json.RawMessage) *hx.Violation { return nil }
+	replayers["loaders"] = func(raw json.RawMessage) *hx.Violation {
+		var r struct {
+			N            int  `json:"n"`
+			Compressible bool `json:"compressible"`
+		}
+		json.Unmarshal(raw, &r)
+		return loadersCase(r.N, r.Compressible, func(kind, detail string) *hx.Violation { return &hx.Violation{Kind: kind, Detail: detail} })
+	}
+}
+
+// loadersCase: one zero-node model (initializer w of n float32 values = graph output, placed last in the file) loaded
+// through NewModelFromBytes, NewModelFromFile and NewModelFromZipFile (stored and deflated entries, alone and behind
+// another entry); every loaded model must return w exactly.
+func loadersCase(n int, compressible bool, mk func(kind, detail string) *hx.Violation) *hx.Violation {
+	w := ref.Fill(ref.F32, []int{n}, func(i int) float64 {
+		if compressible {
+			return 0.5
+		}
+		return float64((uint32(i)*2654435761)>>8) / 65536
+	})
+	g := &onnx.GraphProto{Name: "g", Initializer: []*onnx.TensorProto{hx.TensorProto("w", w, "raw")}, Output: []*onnx.ValueInfoProto{hx.ValueInfoNoShape("w")}}
+	mb := hx.Marshal(hx.Model(g, 13))
+	check := func(how string, m *gonnx.Model, err error) *hx.Violation {
+		if err != nil {
+			return mk("refused", fmt.Sprintf("%s: a valid model of %d bytes is refused: %v", how, len(mb), err))
+		}
+		res := hx.RunModel(m, nil, []string{"w"})
+		if res.Err != nil || res.Panic != "" || res.ReadErr != "" {
+			return mk("refused", fmt.Sprintf("%s: Run failed: %v %s %s", how, res.Err, res.Panic, res.ReadErr))
+		}
+		if k, d := hx.CompareT(res.Outs[0], w, hx.Cmp{Mode: "bits-exact"}); k != "" {
+			return mk(k, fmt.Sprintf("%s: the weight of a %d-byte model differs: %s", how, len(mb), d))
+		}
+		return nil
+	}
+	m, err := gonnx.NewModelFromBytes(mb)
+	if v := check("NewModelFromBytes", m, err); v != nil {
+		return v
+	}
+	dir, err := os.MkdirTemp("", "verif-loaders")
+	if err != nil {
+		hx.HarnessError("temp dir: %v", err)
+	}
+	defer os.RemoveAll(dir)
+	path := filepath.Join(dir, "m.onnx")
+	if err := os.WriteFile(path, mb, 0o644); err != nil {
+		hx.HarnessError("temp file: %v", err)
+	}
+	m, err = gonnx.NewModelFromFile(path)
+	if v := check("NewModelFromFile", m, err); v != nil {
+		return v
+	}
+	for _, method := range []uint16{zip.Store, zip.Deflate} {
+		var buf bytes.Buffer
+		zw := zip.NewWriter(&buf)
+		for _, name := range []string{"first.txt", "model.onnx", "again/model2.onnx"} {
+			fw, err := zw.CreateHeader(&zip.FileHeader{Name: name, Method: method})
+			if err != nil {
+				hx.HarnessError("zip: %v", err)
+			}
+			if name == "first.txt" {
+				fw.Write([]byte("not a model"))
+			} else {
+				fw.Write(mb)
+			}
+		}
+		zw.Close()
+		zr, err := zip.NewReader(bytes.NewReader(buf.Bytes()), int64(buf.Len()))
+		if err != nil {
+			hx.HarnessError("zip reader: %v", err)
+		}
+		for _, f := range zr.File {
+			if f.Name == "first.txt" {
+				continue
+			}
+			m, err := gonnx.NewModelFromZipFile(f)
+			if v := check(fmt.Sprintf("NewModelFromZipFile(%s, method %d)", f.Name, method), m, err); v != nil {
+				return v
+			}
+		}
+	}
+	return hx.OK("loaders-agree")
 }
